@@ -38,6 +38,9 @@ def scenario_table(two_way, resp_docs, fault_doc, wrong_doc):
     sc.append(("ok-default-ns-odd-creds", 200, "resp2", 0, 2, ok))
     sc.append(("ok-pushed-down-nonascii-creds", 200, "resp3", 0, 3, ok))
     sc.append(("ok-pretty", 200, "resp4", 0, 0, ok))
+    sc.append(("200-bom-then-envelope", 200, "respbom", 0, 0, ok))
+    sc.append(("200-xml-declaration-then-envelope", 200, "respdecl", 0, 1, ok))
+    sc.append(("200-blank-lines-around-envelope", 200, "respws", 0, 0, ok))
     sc.append(("201-envelope", 201, "resp0", 0, 0, ok))
     sc.append(("200-chunked-envelope", 200, "resp1", 4, 1, ok))
     sc.append(("500-chunked-envelope", 500, "resp0", 4, 0, "error"))
@@ -58,7 +61,9 @@ def scenario_table(two_way, resp_docs, fault_doc, wrong_doc):
     return sc
 
 
-def stage_wsdl(p, full_matrix=True, restr=False):
+def stage_wsdl(p, full_matrix=True, restr=False, static_only=False):
+    """static_only: only what can be read off the emitted text (service name, method set, method signatures, envelope shapes) —
+    used for programs that do not compile, whose envelopes and methods are judged all the same."""
     w = p.ss.wsdl
     if w is None:
         return
@@ -147,6 +152,10 @@ def stage_wsdl(p, full_matrix=True, restr=False):
             cuts = [len(full) // 6, len(full) // 3, len(full) // 2, len(full) * 3 // 4, len(full) - 3]
             for k, c in enumerate(cuts):
                 docs[f"trunc{k}"] = full[:max(1, c)]
+            # the same envelope behind what servers put in front of it: a byte order mark, an XML declaration, blank lines
+            docs["respbom"] = "\ufeff" + full
+            docs["respdecl"] = '<?xml version="1.0" encoding="utf-8" standalone="yes"?>\r\n' + full
+            docs["respws"] = "\r\n  \t" + full + "\r\n"
             wrong_body = instance.Node(p.ss.files[0].uri, "NotTheExpectedElement", [], None, "x", None)
             docs["wrong"] = instance.render(envelope_tree(wrong_body, []), "root-prefixes")
         else:
@@ -154,6 +163,7 @@ def stage_wsdl(p, full_matrix=True, restr=False):
                 docs[f"resp{k}"] = docs["fault"] if k == 4 else ""
                 docs[f"trunc{k}"] = "<soapenv:Envel"
             docs["wrong"] = docs["otherxml"]
+            docs["respbom"] = docs["respdecl"] = docs["respws"] = ""
         scen = scenario_table(two_way, docs, None, None)
         if not full_matrix:
             scen = [s for s in scen if s[0] in ("ok-exact", "ok-fresh-prefixes-creds", "500-soap-fault", "close-before-headers")]
@@ -197,7 +207,7 @@ def stage_wsdl(p, full_matrix=True, restr=False):
         fns.append((opid, "\n".join(L)))
         meta[opid] = {"op": op, "req_tree": req_tree, "scen": scen, "two_way": two_way, "docs": docs, "method": method, "req_lit": req_lit,
                       "headers_in": len(hdr_els), "parts_attr": op.in_parts_attr}
-    if not fns:
+    if not fns or static_only:
         return
     # a final case: the listener is stopped, the port is closed → connection refused
     first = next(iter(meta))
